@@ -89,6 +89,11 @@ BUILT = {
    'TLC checks on 16 values x every transform and stack (<= Bound) that a list of transforms is a left fold, malformed arguments are errors, flags = tolist:= then prefix:--, and the values / join / prefix / flatten laws; every case not needing a byte codec is replayed on the library. base64, sha256 and the json/yaml/toml texts are environment functions of the specification: when an evaluation needs one, TLC reports the (name, argument) it needs, the harness answers with crypto/sha256, encoding/base64, the independent decoders (dec:*), or for enc:* bkl\'s public encoder whose text the independent decoder must read back as the encoded value (Codec events), and validation is repeated until no request is open. The driver adds random values with random stacks of up to three transforms, malformed arguments, and the inverse law $decode(f, $encode(f, v)) = v over two chained evaluations for six format names.',
    'Values handed to $encode are $-free (encoding precedes un-escaping); what the TOML encoder prints for non-map values is outside the property (TOML cannot represent them).',
    'TLA+ evaluator with codecs as environment functions answered by independent implementations + TLC bounded transform universe with replay + trace validation', '6 C14'),
+
+ 'C04': ('model_checking',
+   'In the specification the format of a layer is not an input of any rule: the file system maps a path to parsed documents, the extension only names the decoder. FormatFree is therefore checked as refinement: TLC evaluates a numeric base layer x 20 upper layers ($match / $delete patterns with 32-bit-overflowing, 64-bit and float ids, same-value overrides of integers, floats, extremes and denormals, $repeat, document-level $match on numbers) x 3 third layers under ALL 3^n assignments of json/yaml/toml, asserts that every assignment equals the all-JSON writing, and each layout is run through the real bkl. Random numeric layer sets (1-3 layers, 1-2 documents) are written under all 3^n assignments, a third of them in a style variant (YAML flow, anchors/aliases, merge keys; TOML dotted keys, inline tables) that the independent decoder confirms to mean the same tree, and TLC validates every run against the format-free RunLayers.',
+   'Trusts the harness emitters (self-checked by the independent decoders for the style variants). Integral-valued floats are excluded (JSON cannot mark them); TOML layers are map-rooted and null-free, without date/time literals.',
+   'TLA+ format-free resolver/evaluator + TLC bounded model over all format assignments with replay + trace validation of recorded runs', '6 C04'),
 }
 PENDING = 'check not built yet (work in progress; DESIGN.md section 6 describes the planned decision procedure)'
 
